@@ -466,12 +466,17 @@ class Interp:
         w = self.w
 
         def strategy(err, attempts_made):
-            dec = inner(err, attempts_made)
+            from dexsim import simtime as _st
+            draws = _st.random_ns.observe()
+            try:
+                dec = inner(err, attempts_made)
+            finally:
+                _st.random_ns.unobserve()
             rec = w.backend.by_name(recname or pos)
             be_att = None if rec is None else (rec.get("StepDetails") or {}).get("Attempt", 0)
             w.rec("strategy", pos=pos, attempts_made=attempts_made, err=type(err).__name__, msg=str(err),
                   retry=bool(dec.should_retry), delay=dec.delay_seconds, be_attempt=be_att,
-                  be_status=None if rec is None else rec["Status"])
+                  be_status=None if rec is None else rec["Status"], draws=list(draws))
             return dec
 
         return strategy
